@@ -19,7 +19,9 @@ META = {
         "explicit null survives, an unset optional stays absent); both factories are wired to those helpers; "
         "(3) per union site x alternative x world (hooktree analysis): no key present in the value is dropped by "
         "the class the handler chooses (lossless), the class accepts the value (sound), the handler does not raise "
-        "(supported); sites without handler are reported."),
+        "(supported); sites without handler are reported."
+        " Also: spec-valid boundary values of integer / uinteger are accepted (C12's accept-set findings are taken over), "
+        "and class-level hooks inherited through the MRO / registered in get_converter are part of the dispatch model."),
     "trusted_base": ["A1-A4 (cattrs dispatch, generated structure/unstructure functions, union unstructuring by runtime class)"],
     "assumptions": ["attribute annotations/defaults are the metamodel's image (C04)", "input is metamodel-valid"],
     "not_decided": ["numeric identity of decimals (1 -> 1.0)", "module-level alias objects that still hold ForwardRefs "
